@@ -83,10 +83,13 @@ def run_C08():
 # =================================================================================== C05 / C04 (tree level) / C06 (edit outputs)
 def run_tree(check):
     for it in range(N):
-        text, meta = gen_doc(R, scoped=False)
+        text, meta = gen_doc(R, scoped=False, quoted=0.15, tiny=0.12)
         src = parse(text); cur = text; ops = []
         for step in range(R.randint(1, 5)):
             op, kind = gen_op(cur, step, False)
+            if meta.get('tiny') and R.random() < 0.5:
+                lp = [k for k in (read_tree(cur) or ({},))[0]]
+                if lp: op, kind = ('rm', pstr(R.choice(lp))), 'existing'
             if kind in ('badpath', 'badvalue') and R.random() < 0.6: continue
             tree0, d0 = read_tree(cur)
             res = apply(src, op); ops.append(op)
@@ -146,6 +149,31 @@ def run_tree(check):
                 if src.rebuild() != out: bad('document object renders differently from the text the edit returned', **case)
         if len(samples) < 2: samples.append({'doc': text, 'ops': ops})
 
+# =================================================================================== C04, scoped edits: byte-level frame
+def run_scoped_frame():
+    import difflib
+    for it in range(max(1, N // 2)):
+        text, meta = gen_doc(R, scoped=True, joints=0.6)
+        if not meta['layers'] or parse(text).rebuild() != text: continue
+        src = parse(text); cur = text; layers = [dict(L) for L in meta['layers']]; ops = []
+        for step in range(R.randint(1, 3)):
+            depth = R.randint(1, len(layers)); L = layers[len(layers) - depth]
+            name = R.choice(sorted(L)); kind = R.choice(['set_existing', 'set_existing', 'set_new', 'rm'])
+            if kind == 'rm' and len(L) == 1: kind = 'set_existing'              # never empty a layer here (C09 covers wrapper removal)
+            if kind == 'set_new': name = 'fresh%d' % step
+            op = ('rm', '@' * depth + name) if kind == 'rm' else ('set', '@' * depth + name, R.choice(['51', '"t"', './q.nix']))
+            res = apply(src, op); ops.append(op); count('scoped-frame/%s/depth%d/layers%d' % (kind, depth, len(layers)))
+            case = dict(doc=text, ops=ops[:])
+            if res[0] != 'ok': bad('scoped edit of an existing layer refused: %s %s' % res[1:], **case); break
+            out = res[1]
+            changed = [l[2:] for l in difflib.ndiff(cur.split('\n'), out.split('\n')) if l[:2] in ('- ', '+ ')]
+            stray = [l for l in changed if not l.strip().startswith(name + ' =')]
+            if stray: bad('a scoped edit changed text outside the addressed binding', out=out, changed_lines=stray[:6], **case); break
+            if kind == 'rm': del L[name]
+            else: L[name] = op[2]
+            cur = out
+        if len(samples) < 3: samples.append({'doc': text, 'ops': ops})
+
 # =================================================================================== C09
 def run_C09():
     import copy
@@ -154,7 +182,8 @@ def run_C09():
         n = R.randrange(0, 4); layers = gen_layers(R, n)
         body = R.choice(['{\n  x = 1;\n  y = [\n    1\n  ];\n}', '{\n  x = 1;\n  v = 0;\n  a = "body";\n}'])
         body_keys = ('v', 'a') if 'v = 0' in body else ()
-        inner = let_text(layers, body)
+        jt = [R.choice(['# joint %d\n' % i, '/* j%d */\n' % i]) if R.random() < 0.3 else '' for i in range(n)]
+        inner = let_text(layers, body, jt)
         text = {'bare': inner, 'lambda_formals': '{ pkgs }:\n' + inner, 'lambda_id': 'pkgs:\n' + inner, 'paren': '(' + inner + ')'}[shape] + '\n'
         src = parse(text); exp = copy.deepcopy(layers); ops = []; cur = text
         for step in range(R.randint(1, 5)):
@@ -175,13 +204,13 @@ def run_C09():
                 else:
                     del e2[len(e2) - depth][name]
                     if not e2[len(e2) - depth]: del e2[len(e2) - depth]
-            before = cur; res = apply(src, op)
+            before = cur; before_obj = src.rebuild(); res = apply(src, op)
             count('%s/%s/depth%d/layers%d/%s' % (shape, opk, depth, len(exp), 'refuse' if err else 'ok'))
             case = dict(doc=text, ops=ops[:])
             if err:
                 if res[0] == 'ok': bad('scoped edit accepted although it must be refused (%s)' % err, out=res[1], **case); break
                 if res[1] not in ('KeyError', 'ValueError'): bad('scoped refusal raises %s' % res[1], **case)
-                if src.rebuild() != before: bad('refused scoped edit changed the document', **case); break
+                if src.rebuild() != before_obj: bad('refused scoped edit changed the document', **case); break
                 continue
             if res[0] != 'ok': bad('scoped edit refused unexpectedly: %s %s' % res[1:], **case); break
             out = res[1]; cur = out
@@ -189,8 +218,15 @@ def run_C09():
             if chain is None: bad('output of a scoped edit does not parse', out=out, **case); break
             if chain != e2: bad('wrong let layers after a scoped edit', out=out, expected=e2, got=chain, **case); break
             if body_text(out) != body: bad('attribute set body changed by a scoped edit', out=out, **case); break
+            if len(e2) == len(exp) and comments_of(out) != comments_of(before):      # no layer created or removed: every comment stays
+                bad('comments outside the addressed binding changed by a scoped edit', out=out, before=comments_of(before), after=comments_of(out), **case); break
             exp = e2
         if len(samples) < 2: samples.append({'doc': text, 'ops': ops})
+
+def set_ends_with_comment(text):
+    sn = set_node(ts(text))
+    kids = [c for c in sn.children if c.type not in ('}',)] if sn is not None else []
+    return bool(kids) and kids[-1].type == 'comment'
 
 # =================================================================================== C19
 def run_C19():
@@ -201,15 +237,18 @@ def run_C19():
         tree0, _ = read_tree(text)
         leafs = [p for p in tree0 if not any(s.startswith('<inherit') for s in p)]
         law = R.choice(['twice', 'set_rm', 'rm_set', 'commute', 'scoped_set_rm'])
-        count(law + '/' + meta['shape'])
+        reparse = R.random() < 0.5           # as the CLI does: the second command starts from the text the first one printed
+        def nxt(a, r): return parse(r[1]) if (reparse and r[0] == 'ok') else a
+        count(law + '/' + meta['shape'] + ('/reparse' if reparse else '/same-object'))
         try:
             if law == 'twice' and paths:
                 p = pstr(R.choice(paths + [('fresh',)])); v = R.choice(VALUES)
-                a = parse(text); r1 = apply(a, ('set', p, v)); r2 = apply(a, ('set', p, v))
+                a = parse(text); r1 = apply(a, ('set', p, v)); r2 = apply(nxt(a, r1), ('set', p, v))
                 if r1[0] == 'ok' and r1 != r2: bad('the same set applied twice differs from once', doc=text, ops=[['set', p, v]] * 2, once=r1[1], twice=r2[1] if r2[0] == 'ok' else r2)
             elif law == 'set_rm':
                 p = 'fresh_k'; v = R.choice(VALUES)
-                a = parse(text); r1 = apply(a, ('set', p, v)); r2 = apply(a, ('rm', p))
+                if reparse and set_ends_with_comment(text): known['F-42'] = known.get('F-42', 0) + 1; continue     # listed: the new binding is written after the set's last comment line, which a re-parse attaches to it
+                a = parse(text); r1 = apply(a, ('set', p, v)); r2 = apply(nxt(a, r1), ('rm', p))
                 if r1[0] == 'ok' and (r2[0] != 'ok' or r2[1] != text): bad('set of a fresh single-segment path then rm does not restore the text', doc=text, ops=[['set', p, v], ['rm', p]], got=r2[1] if r2[0] == 'ok' else r2)
             elif law == 'scoped_set_rm' and WRAPPERS[meta['shape']][2]:
                 layer_names = {k for L in meta['layers'] for k in L}
@@ -217,12 +256,12 @@ def run_C19():
                 p = '@' + (R.choice(body_keys) if body_keys and R.random() < 0.6 else 'fresh_k'); v = R.choice(VALUES[:5])    # a name fresh in the scope, possibly a key of the body
                 if meta.get('commented') and not meta['layers']: known['F-39'] = known.get('F-39', 0) + 1; continue      # listed: final newline lost when the set carries a leading comment
                 if not meta['layers'] and p != '@fresh_k': known['F-37'] = known.get('F-37', 0) + 1; continue      # listed: without a let, @NAME of a body key edits the body
-                a = parse(text); r1 = apply(a, ('set', p, v)); r2 = apply(a, ('rm', p))
+                a = parse(text); r1 = apply(a, ('set', p, v)); r2 = apply(nxt(a, r1), ('rm', p))
                 if r1[0] == 'ok' and (r2[0] != 'ok' or r2[1] != text): bad('set of a fresh scope-prefixed path then rm does not restore the text', doc=text, ops=[['set', p, v], ['rm', p]], got=r2[1] if r2[0] == 'ok' else r2)
             elif law == 'rm_set' and leafs:
                 p = R.choice(leafs); v = tree0[p]
                 if v.startswith('{') or '#' in v or '/*' in v or any('.' in s for s in p): continue
-                a = parse(text); r1 = apply(a, ('rm', pstr(p))); r2 = apply(a, ('set', pstr(p), v))
+                a = parse(text); r1 = apply(a, ('rm', pstr(p))); r2 = apply(nxt(a, r1), ('set', pstr(p), v))
                 if r1[0] == 'ok':
                     t2 = read_tree(r2[1]) if r2[0] == 'ok' else None
                     if t2 is None or not tree_matches(t2[0], tree0, p): bad('rm then set of the removed value does not restore the attribute tree', doc=text, ops=[['rm', pstr(p)], ['set', pstr(p), v]], got=r2[1] if r2[0] == 'ok' else r2)
@@ -231,8 +270,8 @@ def run_C19():
                 p, q_ = R.sample(sorted(set(cands)), 2)
                 if p.startswith(q_ + '.') or q_.startswith(p + '.'): continue
                 v, w = R.choice(VALUES[:5]), R.choice(VALUES[:5])
-                a = parse(text); apply(a, ('set', p, v)); ra = apply(a, ('set', q_, w))
-                b = parse(text); apply(b, ('set', q_, w)); rb = apply(b, ('set', p, v))
+                a = parse(text); r0 = apply(a, ('set', p, v)); ra = apply(nxt(a, r0), ('set', q_, w))
+                b = parse(text); r0 = apply(b, ('set', q_, w)); rb = apply(nxt(b, r0), ('set', p, v))
                 if ra[0] == 'ok' and rb[0] == 'ok' and ra[1] != rb[1]: bad('two sets on different existing paths do not commute', doc=text, ops=[['set', p, v], ['set', q_, w]], pq=ra[1], qp=rb[1])
                 if ra[0] == 'ok' and rb[0] == 'ok' and p.startswith('@') != q_.startswith('@'):
                     # a scoped and a plain set of the same name address different bindings: both must be visible
@@ -244,6 +283,6 @@ def run_C19():
             bad('law check crashed: %s %s' % (type(e).__name__, e), doc=text)
         if len(samples) < 2: samples.append({'doc': text, 'law': law})
 
-{'C08': run_C08, 'C05': lambda: run_tree('C05'), 'C04': lambda: run_tree('C04'), 'C06': lambda: run_tree('C06'), 'C09': run_C09, 'C19': run_C19}[prop]()
+{'C08': run_C08, 'C05': lambda: run_tree('C05'), 'C04': lambda: (run_tree('C04'), run_scoped_frame()), 'C06': lambda: run_tree('C06'), 'C09': run_C09, 'C19': run_C19}[prop]()
 print(json.dumps({'evaluations': sum(dist.values()), 'distinct': len(dist), 'distribution': dist, 'violations': viol[:6], 'n_violations': len(viol),
                   'known_hits': known, 'samples': samples}, default=str))
